@@ -26,7 +26,12 @@ class TagInterp(Interp):
 
     def _stmt(self, path, body, bb, st, upvars):
         self.sem._pending = None
+        self.sem._pending_pay = None
         super()._stmt(path, body, bb, st, upvars)
+        if self.sem._pending_pay is not None:
+            k, v = self.sem._pending_pay
+            path.pay[k] = v
+            self.sem._pending_pay = None
         if self.sem._pending is not None:
             k, tag = self.sem._pending
             if tag is None:
@@ -43,6 +48,7 @@ class StdSem(Semantics):
     def __init__(self, fb):
         self.fb = fb
         self._pending = None
+        self._pending_pay = None
         self.depth = 0
         self.unknown = []
         self._exec = {}
@@ -72,6 +78,25 @@ class StdSem(Semantics):
         if not self.whole(pl):
             return None
         return path.tags.get((body.id, pl['l']))
+
+    def op_bool(self, interp, path, body, op):
+        """known bool value of an operand (constant, or a whole bool local decided on this path)"""
+        if op is None:
+            return None
+        if 'int' in op and op.get('ty', 'bool') == 'bool':
+            return op['int'] != '0'
+        pl = op_place(op)
+        if self.whole(pl) and body.locals[pl['l']] == 'bool':
+            return interp.bool_value(path, body, pl['l'])[0]
+        return None
+
+    def arg_pay(self, path, body, term, i):
+        if len(term['args']) <= i:
+            return None
+        pl = op_place(term['args'][i])
+        if not self.whole(pl):
+            return None
+        return path.pay.get((body.id, pl['l']))
 
     def exec_body(self, name):
         if name not in self._exec:
@@ -139,6 +164,10 @@ class StdSem(Semantics):
             return
         if rv['k'] == 'agg' and rv.get('ak') == 'adt':
             adt = strip_generics(rv['adt'])
+            if adt in (OPT, RES) and len(rv.get('ops', [])) == 1:
+                v = self.op_bool(interp, path, body, rv['ops'][0])
+                if v is not None:
+                    self._pending_pay = (k, v)
             if adt == OPT:
                 self._pending = (k, 'opt:' + rv['var'])
             elif adt == RES:
@@ -156,16 +185,20 @@ class StdSem(Semantics):
                 path.alias.pop(dk, None)
                 path.memo.pop(dk, None)
                 path.tags.pop(dk, None)
+                path.pay.pop(dk, None)
 
         r = self.domain_call(interp, path, body, bb, term, short)
         if r is not None:
             return r
         m = short.split('::')[-1]
         t0 = self.arg_tag(path, body, term, 0)
+        p0 = self.arg_pay(path, body, term, 0)
         is_opt = short.startswith('core::option::Option::')
         is_res = short.startswith('core::result::Result::')
         if short == 'core::ops::try_trait::Try::branch':
             clear_dest()
+            if dk is not None and p0 is not None:
+                path.pay[dk] = p0
             if dk is not None and t0:
                 if t0 in ('res:Ok', 'opt:Some'):
                     path.tags[dk] = 'cf:Continue'
@@ -190,6 +223,17 @@ class StdSem(Semantics):
                 path.memo[dk] = none
             elif m in PRESERVE and t0:
                 path.tags[dk] = t0
+                if p0 is not None and m not in ('map', 'map_err'):
+                    path.pay[dk] = p0
+            elif m in ('unwrap_or', 'unwrap_or_default', 'unwrap', 'expect', 'unwrap_or_else') and (some or none) and body.locals[d['l']] == 'bool':
+                if some and p0 is not None:
+                    path.memo[dk] = p0
+                elif none and m == 'unwrap_or_default':
+                    path.memo[dk] = False
+                elif none and m == 'unwrap_or':
+                    v = self.op_bool(interp, path, body, term['args'][1])
+                    if v is not None:
+                        path.memo[dk] = v
             elif m in ('ok_or', 'ok_or_else') and (some or none):
                 path.tags[dk] = 'res:Ok' if some else 'res:Err'
             elif m == 'ok' and (some or none):
